@@ -341,6 +341,7 @@ DEFAULT_PROFILE = dict(
     p_ts_bytes_default=0.0,     # K16: emitted as str, refused by the runtime
     p_multi_pos_custom=0.0,     # K8
     p_three_part_field_ref=0.0,  # K22 (swift/objc _docf)
+    p_prefer_redacted_alias=0.0,  # bias user-type positions towards aliases carrying a redactor
     p_alias_field_ref=0.0,       # :field:`Alias.f` (whitelist doc-ref parser)
     p_prefix_pattern_literal=0.0,  # K16
     p_ns_doc=0.5,
@@ -535,6 +536,10 @@ class Gen:
                 self.m.feature('map')
         if t is None and allow_user and r.random() < 0.45:
             cands = self.user_types(ns)
+            if cands and self.p['p_prefer_redacted_alias'] and r.random() < self.p['p_prefer_redacted_alias']:
+                red = [d for d in cands if d.kind == 'alias' and
+                       self.alias_chain_has_redactor(ref(d.ns, d.name))]
+                cands = red or cands
             if cands:
                 d = r.choice(cands)
                 t = ref(d.ns, d.name)
